@@ -118,3 +118,31 @@ def explore(prop, rng, tier, helper_scripts, prefixes, rule):
     return corr.explore(prop, scripts, judge=judge, signature=signature, model_first=True, rule=rule,
                         extra={"unmodelled": sorted(unmod), "helper_cases": len(helper_scripts),
                                "family_instruction_cases": len(fam)})
+
+
+def instr_slice(rng, prefixes, nstates, with_variants=True):
+    """Instruction-level cases for the handlers whose key starts with one of `prefixes`, from plain seeded
+    states and from the interpreter-state variants of C01 (inside a repeat / block repeat / interrupts on).
+    Returns (violations, stats) for a check that wants to add this slice to its own exploration."""
+    import vlib
+    fam, keys, unmod = family_scripts(rng, prefixes, nstates)
+    scripts = list(fam)
+    if with_variants:
+        for s in fam:
+            v = c01.variant(rng, 1, False)
+            if v:
+                scripts.append([s[0]] + v + [s[-1]])
+    pair = vlib.Pair("plain")
+    bad, a, b, crashes = pair.diff(scripts, model_first=True)
+    violations = []
+    for (i, kk, ia, mb) in bad[:3]:
+        s2 = scripts[i][:-1] + [scripts[i][-1].replace("interp step", "interp stepv")]
+        ra, rb, _, _ = pair.run([s2], shards=1)
+        why = c01.field_diff(ra[0][-1], rb[0][-1])
+        w = int(scripts[i][-1].split()[2], 16)
+        violations.append(("instruction `%s` (%s; state: %s) differs from the reference model: %s"
+                           % (scripts[i][-1], keys[w][0] if keys[w] else "?", " ; ".join(scripts[i][1:-1]) or "plain", why),
+                           {"kind": "correspondence", "script": scripts[i], "impl": a[i], "model": b[i],
+                            "correspondence": "interp/step"}, True))
+    return violations, {"instruction_cases": len(scripts), "instruction_disagreements": len(bad),
+                        "skipped_by_model": getattr(pair, "skipped", 0)}
